@@ -17,6 +17,7 @@ package parsigdb
 
 //@ func getThresholdMatching
 //@ freshspine r0
+//@ readonly sigs
 //@ props C07 C01
 //@ pure
 //@ requires threshold >= 1 && distinctShares(sigs)
@@ -59,7 +60,9 @@ package parsigdb
 //@ ensures all(k2, key, distinctShares(old(db.entries)[k2]) ==> distinctShares(db.entries[k2]))
 //@ ensures len(db.exemptEntries[exemptEntryKey{ShareIdx: shareIdx, PubKey: k.PubKey, DutyType: k.Duty.Type}]) <= maxExemptEntriesPerShare || len(db.exemptEntries[exemptEntryKey{ShareIdx: shareIdx, PubKey: k.PubKey, DutyType: k.Duty.Type}]) <= len(old(db.exemptEntries)[exemptEntryKey{ShareIdx: shareIdx, PubKey: k.PubKey, DutyType: k.Duty.Type}])
 
+// What store hands back is a copy of the stored list, never the stored slice itself.
 //@ func (db *MemDB) store
+//@ freshspine r0
 //@ props C07 C01 C18
 //@ ensures r1 ==> ncalls(value.Clone) == 1
 //@ atomic
@@ -91,8 +94,11 @@ package parsigdb
 //@ loop 2 invariant len(clones) == $i
 //@ loop 2 invariant forall(a, 0, $i, clones[a].ShareIdx == sigs[a].ShareIdx && rootOf(clones[a]) == rootOf(sigs[a]))
 
+// The stored list handed in is only read: filtering builds its own list (an in-place filter would compact the stored
+// entry outside the lock: duplicated shares, missed triggers, accepted equivocation).
 //@ func matchingSigs
 //@ freshspine r0
+//@ readonly sigs
 //@ props C07 C01
 //@ ensures r1 == nil && typ == core.DutySignature ==> r0 == sigs
 //@ ensures r1 == nil && typ != core.DutySignature ==> forall(a, 0, len(r0), rootOf(r0[a]) == rootOf(sig) && memberOf(r0[a], sigs, len(sigs)))
